@@ -155,6 +155,9 @@ def build_crystal(rec):
         uc = UnitCell(d)
     n = rec["n"]
     pos = np.array([[x / n for x in s["p"]] for s in rec["asym"]], dtype=float)
+    if rec.get("int_positions") and all(x % n == 0 for s in rec["asym"] for x in s["p"]):
+        # whole-number coordinates handed over as integers (a legitimate way to write the origin, a cell corner, ...)
+        pos = np.array([[x // n for x in s["p"]] for s in rec["asym"]], dtype=int)
     if rec.get("decimals"):
         # coordinates as they come out of a file: exact positions rounded to a number of decimals
         pos = np.round(pos, int(rec["decimals"]))
